@@ -46,9 +46,10 @@ ARGS_MORE = ["|/MBOX-MESSAGE/01", "|/MBOX-MESSAGE/99999999999999999999", "|/MAIL
              "|/MBOX-MESSAGE/18446744073709551616", "|/MAILDIR-MESSAGE/9223372036854775808"]
 # about ten representative read-only requests for histories (frame, selector, argument)
 REPS = [("g", "/", ""), ("gp_dir", "/", ""), ("h_get", "/", ""), ("g", "/d", ""), ("gp_dir", "/d", ""),
-        ("g", "/d/.cache.pygopherd.dir", ""), ("g", "/p.pyg", ""), ("g", "/d//", ""), ("g", "//", ""), ("g", "/z.zip", ""),
+        ("g", "/d/.cache.pygopherd.dir", ""), ("g", "/p.pyg", ""), ("g", "/d//", ""), ("g", "/d/.", ""), ("g", "/z.zip", ""),
         # (quick = the first 10; trailing-slash spellings of directory selectors are both earlier and later requests)
-        ("g", "/d/", ""), ("g", "/d///", ""), ("gem", "/", ""),
+        # and so are "/d/." and "/." (refused like "./" since fix 860656c; they used to poison the cache like "/d//")
+        ("g", "/d/", ""), ("g", "/d///", ""), ("g", "//", ""), ("g", "/.", ""), ("gem", "/", ""),
         ("g", "/about.txt", ""), ("h_get", "/d", ""), ("gp_info", "/d/empty.txt", ""), ("g", "/nofile", "")]
 # history runs: exhaustive up to maxhist over the first nreps representatives, or (sim) random longer ones
 
@@ -57,7 +58,7 @@ TIERS = {
                   hls=["default", "full"], hist=[dict(hl="full", nreps=10, maxhist=2)]),
     "thorough": dict(frames=FR_QUICK + FR_MORE, sels=SELS + SELS_MORE, arg_frames=ARG_FRAMES + ARG_FRAMES_MORE,
                      arg_sels=ARG_SELS, args=ARGS + ARGS_MORE, hls=["default", "full"],
-                     hist=[dict(hl="full", nreps=17, maxhist=2), dict(hl="default", nreps=13, maxhist=2),
+                     hist=[dict(hl="full", nreps=19, maxhist=2), dict(hl="default", nreps=15, maxhist=2),
                            dict(hl="full", nreps=8, maxhist=3),
                            dict(hl="full", nreps=17, maxhist=8, sim=400, depth=150)]),
 }
